@@ -143,9 +143,34 @@ def rule_merge(ck: Check, repo: Repo, rid: str = "R3") -> None:
     q = f"{CP}.merge_copyright_lines"
     fn = repo.func(q)
     ck.analysed_fn(q, f"{CP}._parse_copyright_year")
+    # generic lint: itertools.groupby only groups ADJACENT items - its input must be sorted by the grouping key
+    n_gb = 0
+    for c in ast.walk(fn):
+        if isinstance(c, ast.Call) and ast.unparse(c.func).split(".")[-1] == "groupby" and c.args:
+            n_gb += 1
+            key = next((ast.unparse(kw.value) for kw in c.keywords if kw.arg == "key"), ast.unparse(c.args[1]) if len(c.args) > 1 else None)
+            seq = c.args[0]
+            sorted_same = isinstance(seq, ast.Call) and ast.unparse(seq.func) == "sorted" and \
+                next((ast.unparse(kw.value) for kw in seq.keywords if kw.arg == "key"), None) == key
+            if isinstance(seq, ast.Name):
+                from ..rules import single_assign_value
+                d = single_assign_value(fn, seq.id)
+                sorted_same = isinstance(d, ast.Call) and ast.unparse(d.func) == "sorted" and \
+                    next((ast.unparse(kw.value) for kw in d.keywords if kw.arg == "key"), None) == key
+                sorted_same = sorted_same or any(isinstance(x, ast.Call) and ast.unparse(x.func) == f"{seq.id}.sort" and
+                                                 next((ast.unparse(kw.value) for kw in x.keywords if kw.arg == "key"), None) == key
+                                                 for x in ast.walk(fn))
+            r.instance(f"groupby:{ast.unparse(c)[:50]}", {"key": key, "input_sorted_by_key": sorted_same})
+            if not sorted_same:
+                r.violation(q, "groupby over a sequence that is not sorted by the grouping key",
+                            f"`{ast.unparse(c)[:90]}`: groupby only merges ADJACENT equal keys; two notices of one holder separated by"
+                            f" another holder's notice form two groups and the later group overwrites the earlier one (years are lost)",
+                            repo.loc(c))
     loops = [n for n in fn.body if isinstance(n, ast.For)]
-    if len(loops) != 2:
-        raise AnalysisError("merge_copyright_lines: expected a parse loop and an output loop")
+    if len(loops) != 2 or n_gb:
+        if r.violations:
+            return
+        raise AnalysisError("merge_copyright_lines: unrecognised structure (expected a parse loop and a per-line output loop)")
     parse_loop, out_loop = loops
     # parse loop: every input line is examined, first matching pattern, the three groups are kept
     it = ast.unparse(parse_loop.iter)
